@@ -472,9 +472,37 @@ func checkC07(c *mc.Ctx) {
 			}
 		}
 	}
+	// garbage that is well-formed as a table of ANOTHER kind (valid CRC_32): a PAT-format section on the SDT
+	// PID or on the PMT PID naming the elementary PIDs, a PMT-format section on the SDT PID. Whatever is
+	// made of it on its own PID, every other PID is delivered as before.
+	{
+		fakePAT := SecPAT(modelPAT(5, 0x101, 6, 0x100), ref.SecHdr{CNI: true, Version: 9})
+		fakePMT := SecPMT(modelPMT(5, 0x101, 2), ref.SecHdr{CNI: true})
+		mkG := func(pid uint16, sec []byte, cc uint8) *ref.Pkt {
+			pl := append(append([]byte{0x00}, sec...), bytes.Repeat([]byte{0xff}, 183-len(sec))...)
+			return &ref.Pkt{PID: pid, PUSI: true, HasPL: true, CC: cc, Payload: pl}
+		}
+		type tg struct {
+			pkt    *ref.Pkt
+			exempt uint16
+		}
+		gs := []tg{{mkG(0x11, fakePAT, 5), 0x11}, {mkG(0x1000, fakePAT, 5), 0x1000}, {mkG(0x11, fakePMT, 5), 0x11}, {mkG(0x14, fakePAT, 0), 0x14}}
+		for at := 0; at <= len(st.Pkts); at++ {
+			for _, g := range gs {
+				// the garbage packet must not sit inside a unit of its own PID that the comparison relies on:
+				// its PID is exempt altogether
+				ps := append(append(append([]*ref.Pkt{}, st.Pkts[:at]...), g.pkt), st.Pkts[at:]...)
+				b := EncodePkts(ps)
+				c07Compare(c, l, DemuxBytes(b), []int{-3, at}, b, patFirst, map[uint16]bool{g.exempt: true})
+				cdone++
+				n++
+				c.Ev.Class("pid-garbage-looking-like-another-table", 1)
+			}
+		}
+	}
 	c.Ev.DistinctAdd(cdone)
 	c.Ev.AddScenario(mc.Scenario{Name: "single-pid-corruption", SpaceSize: n, Executed: cdone, Exhaustive: cdone == n,
-		Bound: "every byte of every packet of PID 0x100 (PID bits excluded) x {0x00, 0xFF, ^0x01, ^0x80, +1, 0x47} plus TEI/PUSI/priority flips, every subset of its packets deleted, 4 garbage packets with its PID at every position; all other PIDs must be unchanged"})
+		Bound: "every byte of every packet of PID 0x100 (PID bits excluded) x {0x00, 0xFF, ^0x01, ^0x80, +1, 0x47} plus TEI/PUSI/priority flips, every subset of its packets deleted, 4 garbage packets with its PID at every position; packets carrying a CRC-valid section of another table kind (PAT / PMT format) on the SDT, TOT and PMT PIDs at every position; all other PIDs must be unchanged"})
 	c.Ev.Require("pmt-after-pat", "pmt-before-pat", "packet-inserted", "pid-corrupted", "merge-with-duplicates")
 }
 
@@ -539,7 +567,7 @@ func c07Compare(c *mc.Ctx, l *c07Lists, out *DmxOut, what []int, b []byte, patFi
 				known = true
 			}
 		}
-		if !known && !skip[0x100] {
+		if !known && !skip[0x100] && !skip[pid] {
 			rep("foreign-pid", fmt.Sprintf("PID %#x delivered data", pid))
 		}
 	}
